@@ -25,19 +25,20 @@ KIND_WHAT = {
     "resumption": "second connection's resumption status differs from (tickets enabled on both sides)",
     "resumed-without-session": "first connection reports a resumption",
     "panic-or-hang": "endpoint panicked or did not return",
+    "server-completed-without-client-certificate": "server requiring a client certificate completed with a client that has none",
 }
 
 
 def sig_of(facts):
-    return {k: facts[k] for k in ("kind", "vers", "down", "server_restricts_tls13", "suite_in_server_list",
-                                  "suite_in_client_offer") if k in facts}
+    return {k: facts[k] for k in ("kind", "vers", "down", "auth", "ccert", "resumed", "server_restricts_tls13",
+                                  "suite_in_server_list", "suite_in_client_offer") if k in facts}
 
 
 def to_cands(records, rejects):
     cands = []
     for idx, facts in rejects:
         rec = records[idx]
-        case = {"id": rec["id"], "c": rec["c"], "s": rec["s"], "down": rec["down"], "two": rec["second"]}
+        case = {"id": rec["id"], "c": rec["c"], "s": rec["s"], "down": rec["down"], "two": rec["second"], "ccert": rec["ccert"]}
         what = "%s (negotiated per spec: version %s; observed client %s/%s server %s/%s, second=%s; errors c=%r s=%r)" % (
             KIND_WHAT.get(facts["kind"], facts["kind"]), facts.get("vers"), rec["obs"]["cvers"], rec["obs"]["csuite"],
             rec["obs"]["svers"], rec["obs"]["ssuite"], rec["second"], rec["obs"]["cerr"][:80], rec["obs"]["serr"][:80])
